@@ -373,7 +373,23 @@ func manyWorkloads(n string, k int) []ndEvt {
 func nodeDownCorpus() []ndCase {
 	n2 := []ndNode{{Name: "n1"}, {Name: "n2"}}
 	up := func(id int) ndEvt { return ndEvt{E: "report", ID: id, Running: true, Healthy: true} }
+	hb := func(n string) ndEvt { return ndEvt{E: "heartbeat", N: n} }
+	lapse := func(n string) ndEvt { return ndEvt{E: "lapse", N: n, How: "delete"} }
+	mk := func(n string, id int) ndEvt { return ndEvt{E: "create", N: n, ID: id} }
+	start := ndEvt{E: "startWatcher"}
 	return []ndCase{
+		// SECOND lapse of the same node inside one active-watcher session: lapse (handled), the node heartbeats
+		// again and its workloads are reported running again, it lapses again
+		{Nodes: []ndNode{{Name: "n1"}}, Script: []ndEvt{hb("n1"), mk("n1", 1), mk("n1", 2), up(1), up(2), start, lapse("n1"), hb("n1"), up(1), up(2), lapse("n1")}},
+		// the same with a new workload created on the node between the two lapses
+		{Nodes: []ndNode{{Name: "n1"}}, Script: []ndEvt{hb("n1"), mk("n1", 1), up(1), start, lapse("n1"), hb("n1"), up(1), mk("n1", 2), up(2), lapse("n1")}},
+		// two nodes lapsing alternately, twice each
+		{Nodes: n2, Script: []ndEvt{hb("n1"), hb("n2"), mk("n1", 1), mk("n2", 2), up(1), up(2), start, lapse("n1"), lapse("n2"), hb("n1"), up(1), lapse("n1"), hb("n2"), up(2), lapse("n2")}},
+		// second lapse during a hand-over: handled lapse, recovery, the stream breaks, the node lapses in the gap, the watcher comes back
+		{Nodes: n2, Script: []ndEvt{hb("n1"), hb("n2"), mk("n1", 1), mk("n2", 2), up(1), up(2), start, lapse("n1"), hb("n1"), up(1),
+			{E: "breakStream"}, lapse("n1"), {E: "startWatcher", How: "auto"}}},
+		// lapse during a failover (standby → active) of a node that had already lapsed and recovered before
+		{Nodes: []ndNode{{Name: "n1"}}, Script: []ndEvt{hb("n1"), mk("n1", 1), up(1), lapse("n1"), hb("n1"), {E: "standby"}, lapse("n1"), start}},
 		// a bypassed (non-test) node whose heartbeat lapsed before the watcher became active
 		{Nodes: []ndNode{{Name: "n1"}}, Script: []ndEvt{{E: "heartbeat", N: "n1"}, {E: "create", N: "n1", ID: 1}, up(1), {E: "bypass", N: "n1"}, {E: "lapse", N: "n1", How: "delete"}, {E: "startWatcher"}}},
 		// workloads whose last report was "running, unhealthy" / "stopped, healthy": all must become 00
